@@ -188,23 +188,31 @@ def isLabelTy (t : FType) : Bool := t == .prn || t == .cprn || t == .csig
 def LabelsZero (T : Tables) : Prop :=
   ∀ fid f, T.field? fid = some f → isLabelTy f.ty = true → f.width = 0
 
+theorem msmSpecial_off (T : Tables) (id : Ident) (label : Nat) (f : FieldSpec) (fid : Nat)
+    (w bits : Nat) (s1 s2 : DState) (h : msmSpecial T id label f fid w bits s1 = .ok s2) :
+    s2.off = s1.off := by
+  unfold msmSpecial at h
+  repeat' split at h
+  all_goals first
+    | (simp at h; done)
+    | (injection h with h; rw [← h])
+
+theorem harmSpecial_off (T : Tables) (fid : Nat) (idx : List Nat) (s1 s2 : DState)
+    (h : harmSpecial T fid idx s1 = .ok s2) : s2.off = s1.off := by
+  unfold harmSpecial at h
+  repeat' split at h
+  all_goals first
+    | (simp at h; done)
+    | (injection h with h; rw [← h])
+
 theorem fieldSpecial_off (T : Tables) (id : Ident) (label : Nat) (f : FieldSpec) (fid : Nat) (idx : List Nat)
     (w bits : Nat) (s1 s2 : DState) (h : fieldSpecial T id label f fid idx w bits s1 = .ok s2) :
     s2.off = s1.off := by
   unfold fieldSpecial at h
-  simp only at h
   split at h
   · simp at h
-  · rename_i s2' hs2
-    have h2 : s2'.off = s1.off := by
-      repeat' split at hs2
-      all_goals first
-        | (simp at hs2; done)
-        | (injection hs2 with hs2; rw [← hs2])
-    repeat' split at h
-    all_goals first
-      | (simp at h; done)
-      | (injection h with h; rw [← h]; exact h2)
+  · rename_i s' hs'
+    rw [harmSpecial_off T fid idx s' s2 h, msmSpecial_off T id label f fid w bits s1 s' hs']
 
 theorem fieldSpecial_label_df396 (T : Tables) (id : Ident) (label : Nat) (f : FieldSpec) (fid : Nat) (idx : List Nat)
     (w bits : Nat) (s1 s2 : DState) (hl : isLabelTy f.ty = true) (h396 : some fid = T.special.df396)
@@ -216,12 +224,14 @@ theorem fieldSpecial_label_df396 (T : Tables) (id : Ident) (label : Nat) (f : Fi
     · exact Or.inl h
     · exact Or.inr (Or.inl h)
     · exact Or.inr (Or.inr h)
-  simp only [h396, hd, if_true] at h
-  split at h
-  · simp at h
-  · rename_i s2' hs2
-    repeat' split at hs2
-    all_goals simp at hs2
+  have hm : ∃ e, msmSpecial T id label f fid w bits s1 = .error e := by
+    unfold msmSpecial
+    simp only [h396, hd, if_true]
+    repeat' split
+    all_goals exact ⟨_, rfl⟩
+  obtain ⟨e, he⟩ := hm
+  rw [he] at h
+  simp at h
 
 theorem fieldValue_bits_bound (p : Payload) (f : FieldSpec) (w : Nat) (idx : List Nat) (s : DState) (r : Val × Nat)
     (hl : isLabelTy f.ty = false) (h : fieldValue p f w idx s = .ok r) : s.off + w ≤ p.blen := by
